@@ -554,7 +554,9 @@ Definition deser_model_fuel (fuel : nat) (m : ModelP) : res IModel :=
   Ok (mkIModel irv (m_pname m) (m_pver m) (m_domain m) (m_mver m) (m_doc m) g' (funcs_dict [] fs)
                (dict_of (m_meta m))
                (map (fun c => (dflt [] (dc_name c), dflt 0 (dc_num c), dc_devices c)) (m_conf m))).
-Definition deser_model (m : ModelP) : res IModel := deser_model_fuel (mdepth m) m.
+(* fuel: one more than the nesting depth, so that the default (empty) graph of a GRAPH attribute
+   without `g` can always be deserialized *)
+Definition deser_model (m : ModelP) : res IModel := deser_model_fuel (S (mdepth m)) m.
 
 (* serde.serialize_model_into *)
 Definition ser_model_fuel (fuel : nat) (m : IModel) : res ModelP :=
@@ -573,7 +575,7 @@ Definition ser_model_fuel (fuel : nat) (m : IModel) : res ModelP :=
 Definition ser_model (m : IModel) : res ModelP := ser_model_fuel (imdepth m) m.
 
 (* entry points for the other message kinds (from_proto / to_proto dispatch) *)
-Definition deser_graph_top (g : GraphP) : res IGraph := deser_graph (gdepth g) [] g.
+Definition deser_graph_top (g : GraphP) : res IGraph := deser_graph (S (gdepth g)) [] g.
 Definition ser_graph_top (g : IGraph) : res GraphP := ser_graph (igdepth g) None g.
 Definition roundtrip_model (m : ModelP) : res ModelP := im <- deser_model m ;; ser_model im.
 Definition roundtrip_graph (g : GraphP) : res GraphP := ig <- deser_graph_top g ;; ser_graph_top ig.
